@@ -322,6 +322,10 @@ pub struct EfgWriter<'a> {
     /// the unit of perturbation (zero when the file is exactly constant sum)
     unit: Q,
     near_done: bool,
+    /// named infosets whose name has been written at a node already
+    named_once: std::collections::BTreeSet<(usize, u32)>,
+    /// nodes of named infosets written without the name
+    pub partial_names: u64,
 }
 
 fn dyadic(x: f64) -> String {
@@ -433,8 +437,19 @@ impl EfgWriter<'_> {
             }
             NG::Player(one, i, acts) => {
                 let p = if *one { 0 } else { 1 };
+                // the name of an infoset may be written at some of its nodes and left out at others
+                // (the grammar makes it optional per node): once it has been written, later nodes
+                // of the infoset sometimes omit it
                 let nm = match &self.names.info[p][i].1 {
-                    Some(n) => format!(" {}", jstr(n)),
+                    Some(n) => {
+                        if self.named_once.contains(&(p, *i)) && self.rng.chance(0.4) {
+                            self.partial_names += 1;
+                            String::new()
+                        } else {
+                            self.named_once.insert((p, *i));
+                            format!(" {}", jstr(n))
+                        }
+                    }
                     None => String::new(),
                 };
                 let list: Vec<String> = acts.iter().map(|(n, _)| jstr(n)).collect();
@@ -524,6 +539,8 @@ pub struct EfgOut {
     pub sum: f64,
     /// `max - min` of the terminals' `eps`
     pub spread: f64,
+    /// nodes of named infosets written without their name
+    pub partial_names: u64,
 }
 
 fn ng_payoffs(ng: &NG, out: &mut Vec<f64>) {
@@ -560,6 +577,7 @@ pub fn to_efg_file(rng: &mut Rng, ng: &NG, names: &Names, k: f64, interior: bool
     let mut w = EfgWriter {
         rng, names, k, next_outcome: 0, shared: BTreeMap::new(), anon_chance: 0, interior, feat: feat.clone(),
         defined: Vec::new(), lines: Vec::new(), eps: Vec::new(), unit, near_done: false,
+        named_once: Default::default(), partial_names: 0,
     };
     w.node(ng, (Q::ZERO, Q::ZERO));
     if w.feat.reuse {
@@ -569,7 +587,8 @@ pub fn to_efg_file(rng: &mut Rng, ng: &NG, names: &Names, k: f64, interior: bool
     let eps: Vec<f64> = w.eps.iter().map(|e| e.to_f64()).collect();
     let (lo, hi) = if eps.is_empty() { (0.0, 0.0) } else { (eps.iter().cloned().fold(f64::INFINITY, f64::min), eps.iter().cloned().fold(f64::NEG_INFINITY, f64::max)) };
     let (smin, smax) = ((k + lo) / 2.0, (k + hi) / 2.0);
-    EfgOut { text: out, eps, sum: smin + (smax - smin) / 2.0, spread: hi - lo }
+    let partial_names = w.partial_names;
+    EfgOut { text: out, eps, sum: smin + (smax - smin) / 2.0, spread: hi - lo, partial_names }
 }
 
 /// the game of player two's own payoffs as written in the file: `k - u1 + eps`
@@ -675,6 +694,9 @@ pub fn case_cli(ctx: &mut Ctx, case: &Value) {
             if on {
                 ctx.stat(key);
             }
+        }
+        if efg.as_ref().map_or(false, |e| e.partial_names > 0) {
+            ctx.stat("efg_infoset_name_left_out_at_some_nodes");
         }
     }
     let method = case["method"].as_str().unwrap_or("full");
@@ -1180,6 +1202,90 @@ pub fn case_shift(ctx: &mut Ctx, case: &Value) {
     }
     if !(close_tol(x[2], y[2], tol) && close_tol(x[3], y[3], tol) && close_tol(x[4], y[4], tol)) {
         ctx.fail_prop(case, format!("adding {} to all payoffs changes the printed regrets: {:?} vs {:?}", c, &x[2..], &y[2..]));
+    }
+}
+
+/// C12 at the command line: single-outcome chance nodes inserted into a Gambit file whose interior
+/// nodes carry outcomes (payoffs collected along the path) change nothing that is printed.
+pub fn case_degenerate_cli(ctx: &mut Ctx, case: &Value) {
+    ctx.record_current(case);
+    let (t, nseed) = case_ng(case);
+    let discount = case["discount"].as_str().unwrap_or("dcfr").to_string();
+    let iters = case["t"].as_u64().unwrap_or(5);
+    let mut nrng = Rng::new(nseed);
+    let (ng, names) = name_game(&mut nrng, &t);
+    // insert `Chance(None, [only outcome])` above randomly chosen nodes (never renames anything)
+    fn ins(rng: &mut Rng, g: &NG, count: &mut u64) -> NG {
+        let inner = match g {
+            NG::Term(p) => NG::Term(*p),
+            NG::Chance(i, o) => NG::Chance(*i, o.iter().map(|(n, w, c)| (n.clone(), *w, ins(rng, c, count))).collect()),
+            NG::Player(p, i, a) => NG::Player(*p, *i, a.iter().map(|(n, c)| (n.clone(), ins(rng, c, count))).collect()),
+        };
+        if rng.chance(0.3) {
+            *count += 1;
+            NG::Chance(None, vec![("only".to_string(), 1 + rng.below(5) as u32, inner)])
+        } else {
+            inner
+        }
+    }
+    let mut count = 0;
+    let ng2 = ins(&mut nrng, &ng, &mut count);
+    if count == 0 {
+        return;
+    }
+    let feat = EfgFeat { dense: true, ..EfgFeat::default() };
+    let mut run_one = |ctx: &mut Ctx, g: &NG, tag: &str, seed: u64| -> Option<([Named; 2], [f64; 5])> {
+        let mut r = Rng::new(seed);
+        let content = to_efg_file(&mut r, g, &names, 0.0, true, &feat).text;
+        let f = scratch_file(ctx, &format!("degenerate-{}.efg", tag), &content);
+        let args: Vec<String> = vec!["-m".into(), "full".into(), "-d".into(), discount.clone(), "-t".into(), iters.to_string(), "-p".into(), "1".into(), "-i".into(), f];
+        let run = run_cfr(ctx, &args, None);
+        if run.status != Some(0) {
+            return None;
+        }
+        let v: Value = serde_json::from_str(&run.stdout).ok()?;
+        let it = intern(g, &names, 0.0, true);
+        let named = printed_named(&v, &it, &names, &it.tree).ok()?;
+        let num = |k: &str| v.get(k).and_then(|x| x.as_f64()).unwrap_or(f64::NAN);
+        Some((named, [num("player_one_utility"), num("player_two_utility"), num("player_one_regret"), num("player_two_regret"), num("regret")]))
+    };
+    let (a, b) = match (run_one(ctx, &ng, "a", nseed ^ 0x55), run_one(ctx, &ng2, "b", nseed ^ 0xaa)) {
+        (Some(a), Some(b)) => (a, b),
+        _ => return ctx.fail_prop(case, "a valid Gambit file (or the same game with single-outcome chance nodes inserted) was not solved".to_string()),
+    };
+    ctx.stat("cli_degenerate_pairs");
+    let sc = {
+        let mut pv = Vec::new();
+        t.payoffs(&mut pv);
+        pv.iter().fold(1.0f64, |x, y| x.max(y.abs()))
+    };
+    let d = named_diff(&a.0[0], &b.0[0]).max(named_diff(&a.0[1], &b.0[1]));
+    if !(d <= 1e-8) {
+        // the inserted nodes multiply reach probabilities by w/w = 1 exactly, but the interior
+        // outcomes of the two files are split differently along the paths: terminal payoffs are
+        // sums in a different order, and exact ties may be broken differently
+        let params = match discount.as_str() {
+            "vanilla" => Params::vanilla(),
+            "lcfr" => Params::lcfr(),
+            "cfr-plus" => Params::cfr_plus(),
+            "dcfr-prune" => Params::dcfr_prune(),
+            _ => Params::dcfr(),
+        };
+        let c1 = crate::solve_props::Cfg { method: "F".into(), params, iters, thr: 0.0, threads: 1, target: None, seed: 0 };
+        let it = intern(&ng, &names, 0.0, true);
+        let margin = crate::solve_props::model_margin(ctx, &it.tree, &c1);
+        if margin < 1e-6 {
+            ctx.skipped_illcond += 1;
+            ctx.stat("cli_degenerate_ill_conditioned");
+        } else {
+            ctx.fail_prop(case, format!("inserting {} single-outcome chance nodes into the Gambit file changes the printed strategies by {:e} (conditioning margin {:e})", count, d, margin));
+        }
+        return;
+    }
+    let tol = 1e-9 * sc;
+    let (x, y) = (a.1, b.1);
+    if !(0..5).all(|k| close_tol(x[k], y[k], tol)) {
+        ctx.fail_prop(case, format!("inserting {} single-outcome chance nodes into the Gambit file changes the printed numbers: {:?} vs {:?}", count, x, y));
     }
 }
 
